@@ -395,6 +395,7 @@ class Unit:
         self.theorems = []
         self.stub = set()      # functions to emit as assumed contracts (degraded mode, DESIGN 13.6)
         self.stubbed = {}      # name -> reason
+        self.skipped = []      # total mode: functions emitted as their contract alone (not flagged np)
 
     def read_repo(self, rel):
         p = os.path.join(self.repo, rel)
@@ -581,10 +582,10 @@ def process_template(unit, tpl_path):
 
 
 def process_fn(unit, lines, i, arg, rel_tpl):
-    m = re.match(r'(\S+)\s+(?:"([^"]+)"::)?(\w+)(?:\s+as\s+(\w+))?(\s+total)?(\s+nopub)?\s*$', arg)
+    m = re.match(r'(\S+)\s+(?:"([^"]+)"::)?(\w+)(?:\s+as\s+(\w+))?(\s+total)?(\s+np)?(\s+nopub)?\s*$', arg)
     if not m:
         raise AssembleError('bad //@fn: %s' % arg)
-    rel, impl_hdr, name, newname, total, nopub = m.groups()
+    rel, impl_hdr, name, newname, total, np_flag, nopub = m.groups()
     spec_start = i + 1
     j = i + 1
     sections = [('spec', None, [])]
@@ -702,7 +703,13 @@ def process_fn(unit, lines, i, arg, rel_tpl):
     body = tokens_rename(body, renames, st)
     stub_reason = None
     inserts = []
-    if (newname or name) in unit.stub:
+    skipped_total = False
+    if unit.mode == 'total' and not np_flag:
+        # total (no-abort) mode verifies only the functions flagged `np`; every other function is emitted as its contract alone,
+        # exactly what its callers see in partial mode, where its body IS verified against that contract
+        stub_reason = 'not verified in total mode (body verified against this contract in partial mode)'
+        skipped_total = True
+    elif (newname or name) in unit.stub:
         stub_reason = 'front end rejected the extracted body'
     else:
       try:
@@ -766,9 +773,9 @@ def process_fn(unit, lines, i, arg, rel_tpl):
       except AssembleError as e_:
         stub_reason = str(e_)
     fn_rec = {'name': newname or name, 'impl': impl_hdr, 'file': rel, 'line': src_line, 'out_start': unit.cur_line(),
-              'props': [], 'labels': [], 'mode': 'total' if total else mode, 'spec': '%s:%d' % (rel_tpl, i + 1)}
+              'props': [], 'labels': [], 'mode': 'total' if total else mode, 'spec': '%s:%d' % (rel_tpl, i + 1), 'np': bool(np_flag)}
     if stub_reason:
-        unit.emit('#[verifier::external_body] /*DEGRADED*/', rel_tpl)
+        unit.emit('#[verifier::external_body] /*%s*/' % ('TOTAL-SKIP' if skipped_total else 'DEGRADED'), rel_tpl)
     else:
         for at in attrs:
             unit.emit(at, rel_tpl)
@@ -790,6 +797,10 @@ def process_fn(unit, lines, i, arg, rel_tpl):
         # every clause of it is reported undecided (never discharged, never a violation)
         unit.emit('{ unimplemented!() }', '%s:%d' % (rel, src_line))
         fn_rec['out_end'] = unit.cur_line() - 1
+        if skipped_total:
+            fn_rec['skipped_total'] = True
+            unit.skipped.append(fn_rec['name'])
+            return j + 1
         fn_rec['stubbed'] = stub_reason
         unit.stubbed[fn_rec['name']] = stub_reason
         unit.functions.append(fn_rec)
@@ -844,7 +855,7 @@ def assemble(unit_name, repo='/repo', mode='partial', outdir=None, stub=None):
               'use vstd::std_specs::convert::*;\nuse crate::base::*;\nbroadcast use crate::base::group_base;\n', 'header')
     process_template(unit, tpl)
     unit.emit('\n} // mod unit\n} // verus!\nfn main() {}\n', 'footer')
-    suffix = '' if mode == 'partial' else '.' + mode
+    suffix = '' if mode == 'partial' else '_' + mode
     out_rs = os.path.join(outdir, unit_name + suffix + '.rs')
     with open(out_rs, 'w') as f:
         f.write('\n'.join(l for l, _ in unit.out))
@@ -854,7 +865,7 @@ def assemble(unit_name, repo='/repo', mode='partial', outdir=None, stub=None):
     h.update(mode.encode())
     meta = {'unit': unit_name, 'mode': mode, 'file': out_rs, 'origins': [o for _, o in unit.out],
             'functions': unit.functions, 'labels': unit.labels, 'theorems': unit.theorems,
-            'stubbed': unit.stubbed, 'extraction': unit.stats, 'inputs': sorted(set(unit.inputs)), 'hash': h.hexdigest()}
+            'stubbed': unit.stubbed, 'skipped_total': unit.skipped, 'extraction': unit.stats, 'inputs': sorted(set(unit.inputs)), 'hash': h.hexdigest()}
     with open(os.path.join(outdir, unit_name + suffix + '.map.json'), 'w') as f:
         json.dump(meta, f)
     return meta
